@@ -42,6 +42,8 @@ def fz(v):
         return ('slice', fz(v.start), fz(v.stop), fz(v.step))
     if isinstance(v, Inst):
         return ('inst', v.cls.name, tuple(sorted(((k, fz(x)) for k, x in v.fields.items()), key=repr)))
+    if isinstance(v, SymDim):
+        return fz(v.poly())
     if isinstance(v, Poly):
         if v.is_const() and v.cval().denominator == 1:
             return int(v.cval())
@@ -914,6 +916,18 @@ def _meshgrid(*vecs, indexing="xy", **kw):
     return alg.jnp_meshgrid(*vecs, indexing=indexing)
 
 
+def _divmod_model(a, b):
+    return Sym('floordiv', fz(a), fz(b)), Sym('mod', fz(a), fz(b))
+
+
+def _unravel_index(idx, shape):
+    """for a 2-D shape (A, B): (idx // B, idx % B); otherwise opaque"""
+    shape = tuple(shape)
+    if len(shape) == 2:
+        return _divmod_model(idx, shape[1])
+    return tuple(Sym('unravel_index', fz(idx), fz(shape), i) for i in range(len(shape)))
+
+
 def _take(a, indices, axis=None, **kw):
     return term('take', a, indices, axis=axis)
 
@@ -1123,7 +1137,7 @@ def make_world_externals(world_ref):
              inf=Poly.atom(('K', 'inf')), nan=Poly.atom(('K', 'nan')), pi=Poly.atom(('K', 'pi')),
              isnan=_isnan, any=_jnp_any, all=_jnp_all, logical_and=_logical_and, logical_not=_logical_not, logical_or=_logical_or,
              count_nonzero=opaque_fn('count_nonzero'), argsort=opaque_fn('argsort'),
-             unravel_index=lambda idx, shape: tuple(Sym('unravel_index', fz(idx), fz(shape), i) for i in range(len(shape))),
+             unravel_index=_unravel_index, divmod=_divmod_model,
              take=_take, einsum=_einsum_model, split=_split_model, cumsum=opaque_fn('cumsum'),
              sqrt=opaque_fn('sqrt'), exp=opaque_fn('exp'), where=opaque_fn('where'), prod=opaque_fn('prod'),
              max=opaque_fn('max'), min=opaque_fn('min'), greater=lambda a, b: lift(a) > lift(b),
